@@ -1065,6 +1065,8 @@ package client
 //@   ensures result != nil && result == conn.cfg.Me
 //@   ensures conn.st != nil ==> result.Nick == trkMe($trk)
 //@   ensures conn.st == nil ==> result == old(conn.cfg.Me)
+//@   requires [C13] conn.st != nil ==> trkOK(impl(conn.st, "state.stateTracker")) && held(impl(conn.st, "state.stateTracker").mu) == 0 && RI(impl(conn.st, "state.stateTracker"))
+//@   ensures [C13] conn.st != nil ==> result.Nick == impl(conn.st, "state.stateTracker").me.nick
 //@ end
 
 // 433: the refused nick is always answered by NICK <generator(refused)>; the
@@ -1533,6 +1535,9 @@ package client
 //@   requires stOK(conn) && line != nil
 //@   modifies heap, $held, $tr, $log
 //@   ensures [C13] stOK(conn)
+//@   callpre [C13] state.(*stateTracker).Associate 1 joinPending(arg0, arg1, arg2) && has(arg0.chans, arg1)
+//@   assert [C13] state.(*stateTracker).Associate 1 Safe13(arg0) && trkOK(arg0) && has(arg0.chans, arg1)
+//@   assert [C13] state.(*stateTracker).IsOn 1 result1 ==> Safe13(arg0) && trkOK(arg0) && has(arg0.chans, arg1)
 //@   loop 0:
 //@     invariant [C13] stOK(conn) && ch != nil && has(impl(conn.st, "state.stateTracker").chans, ch.Name)
 //@ end
